@@ -388,6 +388,10 @@ func main() {
 			var d writeDesc
 			json.Unmarshal(in.Raw, &d)
 			run.Add(saveAllCase(d))
+		case "ladder":
+			var d ladderDesc
+			json.Unmarshal(in.Raw, &d)
+			run.Add(ladderCase(d))
 		case "load":
 			var d loadDesc
 			json.Unmarshal(in.Raw, &d)
@@ -425,9 +429,16 @@ func main() {
 	// inputs larger than one scanner buffer (64 KiB): one written scene and one text per 256 cases
 	// (the written scene goes first, the text last: they are the two most expensive cases and so land in different shards)
 	rb := r.Fork()
-	for i := 0; i < 1+run.N/1024; i++ {
-		run.Add(writeCase(genBigWrite(rb, run)))
+	// size ladder: one written scene and one read text per rung, judged harness-side (ladder.go); the bottom rung also
+	// goes through Coq as an ordinary write / file case (it replaces the former 1500-face scene)
+	for k, faces := range ladderRungs(run.N >= 2000) {
+		for w, what := range []string{"write", "text"} {
+			run.Add(ladderCase(ladderDesc{What: what, Faces: faces, Sub: run.Seed*1000003 + uint64(2*k+w)}))
+			run.Count(fmt.Sprintf("ladder:%s:%d-faces", what, faces))
+		}
 	}
+	run.Add(writeCase(genLadderScene(hx.NewRng(run.Seed*1000003), 1<<10+1)))
+	run.Count("write:big-over-64KiB")
 	// the file level: Load of hand-written OBJ + MTL files (N/8), SaveAll -> Load (N/16)
 	for i := 0; i < run.N/8; i++ {
 		if c, ok := loadCase(genLoad(r, run)); ok {
@@ -460,6 +471,9 @@ func main() {
 		if c, ok := fileCase(fileDesc{Text: genBigFile(rb, run)}); ok {
 			run.Add(c)
 		}
+	}
+	if c, ok := fileCase(fileDesc{Text: genLadderText(hx.NewRng(run.Seed*1000003+1), 1<<8+1)}); ok {
+		run.Add(c)
 	}
 	run.Finish()
 }
